@@ -156,6 +156,7 @@ static void do_load(char *p) {
   if (topo[s]) { hwloc_topology_destroy(topo[s]); topo[s] = NULL; }
   if (!hwloc_topology_init(&topo[s])) {
     ret = hwloc_topology_set_synthetic(topo[s], desc);
+    hwloc_topology_set_type_filter(topo[s], HWLOC_OBJ_MISC, HWLOC_TYPE_FILTER_KEEP_ALL);
     if (!ret) ret = hwloc_topology_load(topo[s]);
     if (ret) { hwloc_topology_destroy(topo[s]); topo[s] = NULL; }
   }
